@@ -93,6 +93,7 @@ func (bt *BaseToken) loadConfigUnlessLoaded() error {
 	// leak into this one when the ledger holds no metadata yet.
 	bt.config = &proto.Token{}
 
+	defer verifAfterLoad()
 	if len(data) == 0 {
 		return nil
 	}
